@@ -18,6 +18,35 @@ var wordPool = []string{
 	"é", "naïve café", "日本語テキスト", "ß→∞", "😀", "a😀b𝄞c", "\u0000nul", "é́", "Ǆ", "İstanbul", "ÀÉÎ", "αβγ ΑΒΓ",
 	"null", "true", "12", "-3.5", "1e3", "[1,2,3]", "{\"a\":1}", "\"str\"", "123456789012345678901234567890", " 7 ", "[1,", "nan", "1 2",
 	"YWJj", "aGVsbG8gd29ybGQ=", "/w==", "!!!", "MFRGG===",
+	// code points an encoder may treat specially: JS line separators, NEL, NBSP, BOM, non-characters, the
+	// surrogate-range boundaries, DEL, the HTML-unsafe set
+	"a\u2028b", "x\u2029", "\u2028\u2029", "\u0085", "\u00a0", "\ufeffbom", "\ufffe\uffff", "\ud7ff\ue000", "\u007f", "<>&'\"", "</script>", "a\u200bb\u200d",
+	"\U0001fffe\U0010ffff", "\ufffd", "\u0080\u009f",
+}
+
+// specialRunes: every C0 and C1 control, DEL and the code points above, one string each (also in pairs)
+func specialString(r *hlib.Rand) string {
+	pick := func() rune {
+		switch r.Intn(6) {
+		case 0:
+			return rune(r.Intn(0x20))
+		case 1:
+			return rune(0x7f + r.Intn(0x21))
+		case 2:
+			return []rune{0x2028, 0x2029, 0x85, 0xa0, 0xfeff, 0xfffe, 0xffff, 0xd7ff, 0xe000, 0xfffd, 0x200b, 0x2027, 0x202a, 0x1fffe, 0x10ffff, 0x10000}[r.Intn(16)]
+		case 3:
+			return []rune{'<', '>', '&', '\'', '"', '\\', '/', 0x7f, 0x7e, 0x20}[r.Intn(10)]
+		case 4:
+			return rune(0x2000 + r.Intn(0x70))
+		}
+		return rune('a' + r.Intn(26))
+	}
+	n := r.Range(1, 4)
+	var sb strings.Builder
+	for i := 0; i < n; i++ {
+		sb.WriteRune(pick())
+	}
+	return sb.String()
 }
 
 var keyPool = []string{"a", "b", "c", "k", "v", "id", "name", "x", "y", "n", "s", "key", "value", "a b", "ünï", "0", "", "$x", "a.b", "😀"}
@@ -97,6 +126,8 @@ func genString(r *hlib.Rand) string {
 	case 2:
 		w := wordPool[r.Intn(len(wordPool))]
 		return strings.Repeat(w, r.Range(1, 3))
+	case 3, 4:
+		return specialString(r)
 	}
 	return wordPool[r.Intn(len(wordPool))]
 }
